@@ -130,7 +130,7 @@ def ob_sym(ctx, which, s1, s2, sd, exact=False):
                 st, model, dt = rsym.prove(cl, cond, timeout_ms=20000); q += 1; ss += dt
                 if st == 'sat' and bad is None: bad = {'kind': 'c02sym', 'exact': bool(exact), 'which': which, 'signs': [s1, s2, sd], 'output': k, 'expected': '%s%s of the transformed problem' % ('' if sg > 0 else '-', k2)}
                 elif st == 'unknown': unk.append(k)
-    r = {'queries': q, 'nontrivial': q, 'solver_s': round(ss, 3), 'functions': ['GeographicLib::%s::GenInverse (13-argument overload)' % ('GeodesicExact' if exact else 'Geodesic')],
+    r = {'queries': q, 'nontrivial': pairs, 'solver_s': round(ss, 3), 'functions': ['GeographicLib::%s::GenInverse (13-argument overload)' % ('GeodesicExact' if exact else 'Geodesic')],
          'bounds': {'sign pattern (lat1, lat2, lon2-lon1)': [s1, s2, sd], 'paths': [len(A), len(B)], 'feasible path pairs': pairs, 'claims reduced to true by z3.simplify': triv, 'Newton iterations': 1}}
     if bad: r.update({'verdict': 'violated', 'detail': 'GenInverse under %s: output %s is not %s' % (which, bad['output'], bad['expected']), 'cex': bad})
     elif unk: r.update({'verdict': 'inconclusive', 'detail': 'unknown on outputs %r' % sorted(set(unk))})
